@@ -284,3 +284,46 @@ def align_guard(db, ctx):
     ctx.ob("copy_of_bytes|from_le_bytes", mentions(cb.hir, is_call_to("from_le_bytes")), "copy_of_bytes decodes with ReadLE::from_le_bytes", fn=cb)
     al = any(is_call(c3) and path_ends(callee(c3), "mem::align_of") for c3, _ in walk(f.hir))
     ctx.ob("from_bytes|align_of-T", al, "alignment comes from mem::align_of::<T>(): %s" % al, fn=f)
+
+
+@rule("C05.matrix-index", "the connection matrix is linearised identically by the dictionary builder and the reader (re-evaluation of C02.matrix-index)")
+def matrix_index(db, ctx):
+    from . import C02
+    C02.matrix_index(db, ctx)
+    ctx.floor(4)
+
+
+@rule("C05.elide-symmetry", "an optional CSV field that the parser stores as None when it equals base B (none_if_equal(&B, field)) is read back by "
+                            "an accessor that falls back to exactly B, and the writer elides it against the base the loader substitutes")
+def elide_symmetry(db, ctx):
+    pr = db.one("parse_record", "LexiconReader")
+    bases = {}
+    for n, _ in walk(pr.hir):
+        if n.get("k") == "Struct" and (n.get("path") or "").endswith("RawLexiconEntry"):
+            for fl in n["fields"]:
+                e = peel(fl["e"])
+                if is_call(e) and path_ends(callee(e), "none_if_equal"):
+                    a = call_args(e)
+                    bases[fl["name"]] = local_name(a[0])
+    if len(bases) < 3:
+        raise AnchorMissing("parse_record: none_if_equal(..) initialisers", "(%d)" % len(bases))
+    # local name of the base -> entry accessor name (surface/headword are homonymous; `normalized` is norm_form, `reading` is reading)
+    for fld, base in sorted(bases.items()):
+        acc = [f for f in db.fns.values() if f.self_adt and f.self_adt.endswith("lexicon::RawLexiconEntry") and f.name == fld and f.hir]
+        if len(acc) != 1:
+            ctx.ob("accessor|%s" % fld, False, "no unique accessor RawLexiconEntry::%s()" % fld)
+            continue
+        f = acc[0]
+        fb = None
+        for c, _ in walk(f.hir):
+            if c.get("k") == "MethodCall" and c.get("method") in ("unwrap_or_else", "unwrap_or", "map_or_else", "map_or"):
+                for x, _ in walk(c["args"][0] if c["args"] else {}):
+                    if x.get("k") == "MethodCall" and (callee(x) or "").endswith("RawLexiconEntry::" + x["method"]):
+                        fb = x["method"]
+        ctx.ob("accessor|%s" % fld, fb == base, "RawLexiconEntry.%s is stored as None when equal to `%s`; %s() falls back to %s() — %s" % (
+            fld, base, fld, fb, "symmetric" if fb == base else "ASYMMETRIC: an elided value is materialised as a different string"), fn=f)
+    wf, seq = wimodel.writer_sequence(db)
+    for s in seq:
+        if len(s) > 3 and s[3] == "write_empty_if_equal":
+            ctx.ob("writer-elides-against-headword|%s" % s[2], "headword()" in s[4], "writer elides `%s` when equal to `%s` (the loader substitutes the stored surface = headword)" % (s[2], s[4]), fn=wf)
+    ctx.floor(5)
